@@ -13,6 +13,12 @@ package main
 //   id 40  canary:impure              sorts xs inside its window, writes ONE cell into the spare
 //                                     capacity behind ys (len unchanged), only reads zs
 //                                     -> mutated must be exactly [1 1 0]
+//          canary:impure/extreme      normalises xs and the weights ws IN PLACE (divides by the maximum)
+//                                     only when the maximum is beyond 1e+-100 (the shape of seeded
+//                                     C20-8), only reads zs; run with the extreme-magnitude flavour
+//                                     (mag: data and weights / weights only... see c20Gen)
+//                                     -> mutated must be exactly [1 1 0]: a flavour that no longer
+//                                     scales the arrays leaves the canary unflagged
 //   id 41  canary:nondet/repeat       returns a call counter            -> det = 0 (plain repeat)
 //          canary:nondet/stale-cache  memoises by the ADDRESS of xs     -> det = 0 (only the "same
 //                                     arrays, other contents" history step sees it)
@@ -137,6 +143,28 @@ func c20CanaryRaceFn(xs []float64) uint64 {
 	return uint64(len(xs))
 }
 
+// the shape of seeded C20-8: input of extreme magnitude is brought to unit scale in the caller's arrays
+func c20CanaryExtremeFn(xs, ws, zs []float64) uint64 {
+	for _, a := range [][]float64{xs, ws} {
+		m := 0.0
+		for _, v := range a {
+			if math.Abs(v) > m {
+				m = math.Abs(v)
+			}
+		}
+		if m > 1e100 || (0 < m && m < 1e-100) {
+			for i := range a {
+				a[i] /= m
+			}
+		}
+	}
+	s := 0.0
+	for _, z := range zs {
+		s += z
+	}
+	return uint64(len(xs)) + uint64(len(zs))<<20 + math.Float64bits(s)<<40
+}
+
 func init() {
 	addc := func(c c20Call) { c20Canaries = append(c20Canaries, c) }
 	plain := func(rng *rand.Rand, n int) []float64 {
@@ -159,6 +187,27 @@ func init() {
 			xs, ys, zs := houseFx(x0, sx), houseFx(y0, sy), houseFx(z0, sz)
 			return &c20Inst{[]func() []uint64{snapF(&xs), snapF(&ys), snapF(&zs)}, func() []uint64 {
 				return []uint64{c20CanaryImpureFn(xs, ys, zs)}
+			}}
+		}
+	}})
+	addc(c20Call{"canary:impure/extreme", c20CanaryImpure, 3, func(rng *rand.Rand, n int) func() *c20Inst {
+		if n < 3 {
+			n = 3
+		}
+		x0, w0, z0 := plain(rng, n), plain(rng, n), plain(rng, n)
+		for i := range w0 {
+			w0[i] = math.Abs(w0[i]) + 1
+			x0[i] = math.Abs(x0[i]) + 0.5
+		}
+		sx, sw, sz := rng.Intn(3), rng.Intn(3), rng.Intn(3)
+		return func() *c20Inst { // arrays of its own per instance: the concurrent stage shares nothing
+			xs, ws, zs := houseFx(x0, sx), houseFx(w0, sw), houseFx(z0, sz)
+			// both arrays carry the case's factor whatever the target (this canary tests the scaling itself)
+			c20MagApply(xs, c20MagTarget == 1)
+			c20MagApply(ws, c20MagTarget != 2)
+			c20MagApply(zs, false)
+			return &c20Inst{[]func() []uint64{snapF(&xs), snapF(&ws), snapF(&zs)}, func() []uint64 {
+				return []uint64{c20CanaryExtremeFn(xs, ws, zs)}
 			}}
 		}
 	}})
